@@ -55,6 +55,8 @@ type Contract struct {
 	ModText  []string
 	LoopInvs map[int][]Clause
 	LoopMods map[int][]ast.Expr // loop N modifies ...: what one iteration may change on the heap (default: syntactic effects)
+	OnCall     map[string][]GhostAssign // "<callee name>:<ordinal>:before|after" -> ghost assignments at that call site
+	SelAsserts map[string][]Clause // "N:default" / "N:K" -> assertions at the start of that branch of the N-th select statement
 	OnRet    []OnReturn
 	OnEntry  []GhostAssign
 	Inst     map[string]string
@@ -148,7 +150,7 @@ var declKeywords = map[string]bool{"func": true, "extern": true, "field": true, 
 	"ghost": true, "axiom": true, "monitor": true, "lemma": true, "devirtall": true}
 var clauseKeywords = map[string]bool{"prop": true, "params": true, "results": true, "recv": true, "requires": true, "ensures": true,
 	"modifies": true, "loop": true, "on": true, "instantiate": true, "strings": true, "inline": true, "mode": true, "decreases": true,
-	"safety": true, "invariant": true, "protects": true, "self": true, "vars": true, "assumes": true, "replay": true, "allocates": true, "devirt": true, "spawn": true, "rely": true, "observation": true}
+	"safety": true, "invariant": true, "protects": true, "self": true, "vars": true, "assumes": true, "replay": true, "allocates": true, "devirt": true, "spawn": true, "rely": true, "observation": true, "select": true}
 
 // desugarSpec rewrites ==> and <==> (lowest precedence, right associative) into calls.
 func desugarSpec(s string) string {
@@ -616,6 +618,24 @@ func parseContractFile(path, pkgPath, pkgName string) (*ContractFile, error) {
 					cur.OnEntry = append(cur.OnEntry, as...)
 					continue
 				}
+				if strings.HasPrefix(rest, "call ") {
+					// on call <name> <ordinal> before|after do a = b; ...
+					f := strings.Fields(rest)
+					doIdx := strings.Index(rest, " do ")
+					if len(f) < 6 || doIdx < 0 || (f[3] != "before" && f[3] != "after") {
+						return nil, fmt.Errorf("%s:%d: on call <name> <ordinal> before|after do ...", path, rl.line)
+					}
+					as, err := parseAssigns(strings.TrimSpace(rest[doIdx+4:]), path, rl.line)
+					if err != nil {
+						return nil, err
+					}
+					if cur.OnCall == nil {
+						cur.OnCall = map[string][]GhostAssign{}
+					}
+					k := f[1] + ":" + f[2] + ":" + f[3]
+					cur.OnCall[k] = append(cur.OnCall[k], as...)
+					continue
+				}
 				if !strings.HasPrefix(rest, "return") {
 					return nil, fmt.Errorf("%s:%d: on return ...", path, rl.line)
 				}
@@ -665,6 +685,39 @@ func parseContractFile(path, pkgPath, pkgName string) (*ContractFile, error) {
 					}
 					cur.SpawnMod = append(cur.SpawnMod, e)
 				}
+			case "select":
+				// select N default|case K asserts[label] expr
+				f := strings.Fields(rest)
+				if len(f) < 4 {
+					return nil, fmt.Errorf("%s:%d: select N default|case K asserts[label] expr", path, rl.line)
+				}
+				key := f[0] + ":default"
+				skip := 2
+				if f[1] == "case" {
+					key = f[0] + ":" + f[2]
+					skip = 3
+				}
+				idx := 0
+				for i := 0; i < skip; i++ {
+					idx = strings.Index(rest[idx:], f[i]) + idx + len(f[i])
+				}
+				r2 := strings.TrimSpace(rest[idx:])
+				isAssume := strings.HasPrefix(r2, "assumes")
+				if !strings.HasPrefix(r2, "asserts") && !isAssume {
+					return nil, fmt.Errorf("%s:%d: select N default|case K asserts|assumes[label] expr", path, rl.line)
+				}
+				c, err := mkClause(strings.TrimSpace(r2[len("asserts"):]), rl.line)
+				if err != nil {
+					return nil, err
+				}
+				if isAssume {
+					c.Mode = "assume"
+					cur.Assumes = append(cur.Assumes, "at select "+key+": "+c.Text)
+				}
+				if cur.SelAsserts == nil {
+					cur.SelAsserts = map[string][]Clause{}
+				}
+				cur.SelAsserts[key] = append(cur.SelAsserts[key], c)
 			case "observation":
 				// observation <obligation suffix> :: <text>
 				parts := strings.SplitN(rest, "::", 2)
